@@ -288,6 +288,28 @@ def cron_facts(tree: ast.Module) -> dict:
             "min_interval_strict": isinstance(mi[0].ops[0], ast.Lt)}
 
 
+def first_poll_checked(fn: ast.FunctionDef) -> bool:
+    """between reading the stored last execution and the compare-and-swap: is `if not condition.is_satisfied_by(context):
+    return None` a statement of the function body itself (always evaluated) or only nested under `if storage_last_execution:`"""
+    top = fn.body
+    rd = [i for i, s in enumerate(top) if isinstance(s, ast.Assign) and _is_self_call(s.value, "get_last_cron_execution")]
+    wr = [i for i, s in enumerate(top) if isinstance(s, ast.Assign) and _is_self_call(s.value, "store_last_cron_execution")]
+    if len(rd) != 1 or len(wr) != 1 or not rd[0] < wr[0]:
+        raise TranslateError("_should_trigger_cron_condition: read / compare-and-swap order not recognised")
+
+    def is_check(s):
+        return (isinstance(s, ast.If) and ast.unparse(s.test).replace(" ", "") == "notcondition.is_satisfied_by(context)"
+                and len(s.body) == 1 and isinstance(s.body[0], ast.Return))
+    between = top[rd[0] + 1:wr[0]]
+    if any(is_check(s) for s in between):
+        return True
+    nested = [s for s in between if isinstance(s, ast.If) and ast.unparse(s.test) == "storage_last_execution"
+              and any(is_check(x) for x in s.body)]
+    if len(nested) == 1:
+        return False
+    raise TranslateError("_should_trigger_cron_condition: schedule check after the storage read not recognised")
+
+
 def _b(x: bool) -> str:
     return "true" if x else "false"
 
@@ -327,6 +349,7 @@ def extract(repo: str) -> tuple[dict, dict]:
     sa = _fstring_attrs(_method(stat, "StatusContext", "context_id"))
     f["status_ctx_inv_and_status"] = sorted(sa) == ["invocation_id", "status"]
     f.update({"cron_" + k: v for k, v in cron_facts(cron).items()})
+    f["cron_first_poll_checked"] = first_poll_checked(_method(base, "BaseTrigger", "_should_trigger_cron_condition"))
 
     shapes = {
         "TriggerDefinition.generate_trigger_run_ids": _shape(_method(tdefs, "TriggerDefinition", "generate_trigger_run_ids")),
@@ -370,13 +393,14 @@ def emit(f: dict) -> str:
         ("f_cron_tolerance_s", str(f["cron_tolerance"])),
         ("f_cron_window_inclusive", _b(f["cron_window_inclusive"])),
         ("f_cron_min_interval_strict", _b(f["cron_min_interval_strict"])),
+        ("f_cron_first_poll_checked", _b(f["cron_first_poll_checked"])),
     ]
     lines = [
         "(* GENERATED by harness/translate/trigger.py from pynenc/trigger/*.py.",
         "   Do not edit: rewritten on every check run. *)",
         "From Coq Require Import ZArith Bool.",
         "From PV Require Import Model.TriggerDef.",
-        "Open Scope Z_scope.",
+        "Local Open Scope Z_scope.",
         "",
         "Definition gen_facts : facts :=",
         "  {| " + ";\n     ".join(f"{k} := {v}" for k, v in rows) + " |}.",
